@@ -1,7 +1,7 @@
 use vh::{driver, props, Tier};
 
 fn usage() -> ! {
-    eprintln!("usage: vcheck <ID> <quick|thorough> | vcheck <ID> --replay <file> | vcheck worker <ID> <tier> <seed> <start> <stride> <total> | vcheck list");
+    eprintln!("usage: vcheck <ID> <quick|thorough> | vcheck <ID> --replay <file> | vcheck worker <ID> <tier> <seed> <start> <stride> <total> | vcheck tiny <ID> <seed> <shard> <nshards> <count> | vcheck list");
     std::process::exit(2);
 }
 
@@ -25,6 +25,16 @@ fn main() {
         let p = |s: &String| s.parse::<u64>().unwrap_or_else(|_| usage());
         driver::worker_main(def, tier, p(&args[4]), p(&args[5]), p(&args[6]), p(&args[7]));
         return;
+    }
+    if args[1] == "tiny" {
+        // vcheck tiny <ID> <seed> <shard> <nshards> <count>: in-process, no subprocesses, small sizes. This is what
+        // runs under Miri (tools/sanitize.py); it is also runnable natively.
+        if args.len() != 7 {
+            usage();
+        }
+        let def = props::find(&args[2]).unwrap_or_else(|| usage());
+        let p = |s: &String| s.parse::<u64>().unwrap_or_else(|_| usage());
+        std::process::exit(driver::tiny_main(def, p(&args[3]), p(&args[4]), p(&args[5]), p(&args[6])));
     }
     let def = props::find(&args[1]).unwrap_or_else(|| usage());
     if args.len() >= 4 && args[2] == "--replay" {
